@@ -11,6 +11,8 @@ the database in a scripted order:
   F  fault: the instance with most running jobs is deactivated (real Instance.deactivate) and replaced by a fresh active one
   C<g>  the client cancels job group g (real cancel_job_group_in_db)
   P  a scheduler pass (as S) during which the first instance a job is POSTed to is preempted while the request is in flight
+  E<kind>  a scheduler pass (as S) whose first job-create POST is answered by the worker with HTTP 503 / 500 / 404, a timeout or a
+     connection error (instance still active)
   Q  a scheduler pass (as S) during which the worker's job_started report of the attempt being scheduled is processed while the POST is
      in flight (real mark_job_started), before CALL schedule_job
   J  the job-private manager: REAL JobPrivateInstanceManager.create_instances_loop_body (only the VM creation is faked), the new
@@ -82,6 +84,7 @@ class Actors:
         self.n_orphans = 0
         self.preempted_in_flight = 0
         self.ambiguous_commits = 0
+        self.worker_errors = 0
         self.started_in_flight = 0
         self.jp_timeouts = 0
         self._jpm = None
@@ -244,6 +247,31 @@ class Actors:
                 self.next_inst += 1
                 w.apply(f'newInstance {self.next_inst} 4000 1')
                 w.apply(f'activate {self.next_inst}')
+        elif k == 'E':
+            # a scheduler pass (the REAL schedule_loop_body with its error wrapper) during which the worker answers the first job-create
+            # POST with an error while its instance stays active: E503 / E500 / E404 / Etimeout / Econn
+            import aiohttp
+            import asyncio
+            session = w.app['client_session']
+            fired = []
+            kind = a[1:] or '503'
+
+            async def worker_error(name, args, kw):
+                if name != 'post' or fired or not args or '/jobs/create' not in str(args[0]):
+                    return
+                fired.append(kind)
+                if kind == 'timeout':
+                    raise asyncio.TimeoutError()
+                if kind == 'conn':
+                    raise aiohttp.ClientConnectionError('connection reset by peer')
+                raise aiohttp.ClientResponseError(None, (), status=int(kind), message='worker says no')
+            session.hook = worker_error
+            try:
+                w.run(self._safe('scheduler', self.scheduler.schedule_loop_body()))
+            finally:
+                session.hook = None
+            if fired:
+                self.worker_errors += 1
         elif k == 'Q':
             # one scheduler pass during which the worker's job_started report of the very attempt being scheduled is processed while
             # driver.job.schedule_job still awaits its POST (real mark_job_started), so that CALL schedule_job afterwards finds the job Running
@@ -549,6 +577,7 @@ def run_actor_case(repo, c, step_checks, final_checks=()):
                         ('instance-preempted-while-job-in-flight', act.preempted_in_flight > 0),
                         ('job-started-while-schedule_job-in-flight', act.started_in_flight > 0),
                         ('ambiguous-commit-in-a-driver-call', act.ambiguous_commits > 0),
+                        ('worker-answers-job-create-with-an-error', act.worker_errors > 0),
                         ('job-private-path', act.jp_scheduled > 0), ('job-private-activation-timeout', act.jp_timeouts > 0),
                         ('canceller-ready-loop-ran', 'R' in act.log),
                         ('canceller-running-loop-with-running-jobs-outside-the-cancelled-subtree', getattr(act, 'u_with_outsiders', 0) > 0),
